@@ -11,11 +11,12 @@ import DemesVerif.Ops.Heap
 import DemesVerif.Ops.Spec
 import DemesVerif.Ops.Builder
 import DemesVerif.Ops.Records
+import DemesVerif.Ops.RecordsClose
 namespace Demes.Ops
 open Lean
 
 def dispatchers : List (String → Json → Option Json) :=
-  [Core.dispatch?, IO.dispatch?, Handles.dispatch?, Cli.dispatch?, Cost.dispatch?, Ms.dispatch?, Heap.dispatch?, SpecOps.dispatch?, Builder.dispatch?, Records.dispatch?]
+  [Core.dispatch?, IO.dispatch?, Handles.dispatch?, Cli.dispatch?, Cost.dispatch?, Ms.dispatch?, Heap.dispatch?, SpecOps.dispatch?, Builder.dispatch?, Records.dispatch?, RecordsClose.dispatch?]
 
 def dispatch (j : Json) : Json :=
   match j.getObjValAs? String "op" with
